@@ -5,6 +5,8 @@ package lifecyc
 
 import (
 	"context"
+	"crypto/tls"
+	"os"
 	"encoding/json"
 	"errors"
 	"fmt"
@@ -15,6 +17,7 @@ import (
 
 	smtp "github.com/emersion/go-smtp"
 
+	"verifharness/drv"
 	"verifharness/pipe"
 	"verifharness/rec"
 )
@@ -45,6 +48,15 @@ func Run(rng *rand.Rand, maxSteps int, gateMu *sync.Mutex, allowBoth bool) *Scen
 	var logbuf strings.Builder
 	var logmu sync.Mutex
 	s.ErrorLog = logger{&logbuf, &logmu}
+	// half of the scenarios use implicit TLS; a connection may then stall in
+	// the handshake (accepted, no ClientHello yet) when the server is closed
+	implicit := rng.Intn(2) == 0
+	var tcfg *tls.Config
+	if implicit {
+		cert, _ := drv.TLSMaterial()
+		tcfg = &tls.Config{Certificates: []tls.Certificate{cert}}
+		s.TLSConfig = tcfg
+	}
 	l := pipe.NewListener()
 	serveRet := make(chan error, 1)
 	go func() { serveRet <- s.Serve(l) }()
@@ -149,13 +161,32 @@ func Run(rng *rand.Rand, maxSteps int, gateMu *sync.Mutex, allowBoth bool) *Scen
 		case ev == "dial":
 			c, sv := pipe.New()
 			before := l.Accepts
-			l.DialConn(sv)
+			stall := implicit && rng.Intn(2) == 0
+			if implicit {
+				l.DialConn(tls.Server(sv, tcfg))
+			} else {
+				l.DialConn(sv)
+			}
 			waitUntil(func() bool { return l.QueueLen() == 0 && l.Accepts > before })
-			// wait for the greeting so that the handler is registered
 			buf := make([]byte, 256)
-			c.SetReadDeadline(time.Now().Add(2 * time.Second))
-			c.Read(buf)
-			c.SetReadDeadline(time.Time{})
+			switch {
+			case stall:
+				// no ClientHello: the handler sits in the handshake
+				sc.Script[len(sc.Script)-1] = "dial(stalled-in-handshake)"
+				time.Sleep(time.Millisecond)
+			case implicit:
+				_, pool := drv.TLSMaterial()
+				tc := tls.Client(c, &tls.Config{RootCAs: pool, ServerName: "verif.test"})
+				c.SetDeadline(time.Now().Add(2 * time.Second))
+				tc.Handshake()
+				tc.Read(buf)
+				c.SetDeadline(time.Time{})
+			default:
+				// wait for the greeting so that the handler is registered
+				c.SetReadDeadline(time.Now().Add(2 * time.Second))
+				c.Read(buf)
+				c.SetReadDeadline(time.Time{})
+			}
 			conns = append(conns, c)
 			open[len(conns)] = true
 			sc.Events = append(sc.Events, Event{"ev": "dial"})
@@ -197,6 +228,15 @@ func Run(rng *rand.Rand, maxSteps int, gateMu *sync.Mutex, allowBoth bool) *Scen
 			if !wasWinner {
 				winner = true
 				if cl[c].kind == "close" {
+					if cl[c].res == "nil" {
+						// Close ends every connection accepted before it
+						for k := range open {
+							if !endedByServer(conns[k-1]) {
+								sc.Note = fmt.Sprintf("connection %d was accepted before Close, and is still open after Close returned nil (script %v)", k, sc.Script)
+								return sc
+							}
+						}
+					}
 					open = map[int]bool{} // the server closed them
 				}
 				logServeRet(2 * time.Second)
@@ -282,6 +322,20 @@ func Run(rng *rand.Rand, maxSteps int, gateMu *sync.Mutex, allowBoth bool) *Scen
 		c.Close()
 	}
 	return sc
+}
+
+// endedByServer: the peer sees the end of the stream (not a timeout).
+func endedByServer(c *pipe.End) bool {
+	buf := make([]byte, 4096)
+	c.SetReadDeadline(time.Now().Add(time.Second))
+	defer c.SetReadDeadline(time.Time{})
+	for {
+		_, err := c.Read(buf)
+		if err == nil {
+			continue // replies / alerts still queued
+		}
+		return !errors.Is(err, os.ErrDeadlineExceeded)
+	}
 }
 
 func waitUntil(f func() bool) {
